@@ -79,6 +79,16 @@ PROPS["C16"] = dict(
                "polynomial of BoundaryConstraint, sequence assertions' validation, set_num_transition_exemptions.",
     explanation=MIX)
 
+PROPS["C11"] = dict(
+    level="other", claimed=True,
+    level_text="Frequency-domain MDS fast path only: for every state of canonical elements the 12x12 and 8x8 mds_multiply never "
+               "overflow their i64/u64 intermediates and return canonical elements (Kani, full domain over all state words), and "
+               "on scaled unit vectors they return the columns of the documented circulant matrices.",
+    level_note="NOT decided by this check: linearity of the fast path (hence the full matrix product), S-box / inverse S-box / "
+               "round constants against a reference, sponge padding of hash(), merge == hash of concatenation, merge_with_int "
+               "injectivity, independence of hash_elements from representation, Blake3/SHA3 (external crates).",
+    explanation=MIX)
+
 NOT_APPLICABLE.update({
     "C01": "whole-protocol completeness over all AIR programs: no per-function contract carries it (DESIGN.md 4.C01)",
     "C02": "cryptographic soundness is probabilistic and adversarial, not a safety property of any function (DESIGN.md 4.C02)",
